@@ -135,7 +135,9 @@ func genC14(seed uint64, r *Rng, idx, vecs int) *C14Case {
 			quote(stem) + ` | append: ".html"`, `'` + stem + `' | append: '.html'`, quote("zz"+f.Rel) + ` | remove: "zz"`,
 			quote("zz"+f.Rel) + ` | replace: "zz", ""`, quote(f.Rel) + ` | slice: 0, 99`,
 			fmt.Sprintf("incp%d", i), fmt.Sprintf("incd%d", i), quote("y//../" + f.Rel), fmt.Sprintf("pg%d.Sidebar", i),
-			fmt.Sprintf("inc%d | pathof", i), quote(f.Rel) + " | pathof"}
+			fmt.Sprintf("inc%d | pathof", i), quote(f.Rel) + " | pathof",
+			// the argument wrapped over two lines
+			quote(f.Rel) + "\n  | append: \"\"", fmt.Sprintf("inc%d\n| pathof", i)}
 	}
 	argsFor := func(i int) []string {
 		as := argsFor0(i)
@@ -190,6 +192,9 @@ func genC14(seed uint64, r *Rng, idx, vecs int) *C14Case {
 			}
 			if gg.Chance(0.05) {
 				t = []*TNode{{K: "tag", S: "assign w3 = 3"}} // a file that renders to nothing
+			}
+			if gg.Chance(0.1) {
+				t = append([]*TNode{{K: "text", S: "\ufeff"}}, t...) // the file starts with a UTF-8 byte-order mark
 			}
 			return t
 		}
